@@ -622,6 +622,25 @@ def ctext(fn, e, values=True):
 # inlined view: statement-level calls of non-public void members of the same class replaced by the callee's body (parameters replaced by
 # the arguments), so that a rule sees the same statements whether or not a block was extracted into a private helper
 # ---------------------------------------------------------------------------------------------------------------------------
+_STRUCT_LIKE = {}
+
+
+def struct_like(by_pat):
+    """record templates all of whose member functions are public (written as `struct`): their helpers cannot be told from their
+    interface by access, so any void member called as a statement may be seen through"""
+    key = id(by_pat)
+    hit = _STRUCT_LIKE.get(key)
+    if hit is not None and hit[0] is by_pat:
+        return hit[1]
+    acc = {}
+    for f in by_pat.values():
+        if f.get("rect") and f.get("kind") == "method":
+            acc.setdefault(f["rect"], set()).add(f.get("access", 0))
+    res = {r for r, a in acc.items() if a == {0}}
+    _STRUCT_LIKE[key] = (by_pat, res)
+    return res
+
+
 def inlined_body(fn, by_pat, depth=2, _stack=(), keep=()):
     import copy
 
@@ -642,12 +661,25 @@ def inlined_body(fn, by_pat, depth=2, _stack=(), keep=()):
         if s.get("k") == "Expr" and isinstance(strip(s.get("e")), dict) and strip(s["e"]).get("k") == "Call" and d > 0:
             c = strip(s["e"])
             cal = by_pat.get(c.get("cpat"))
-            if cal is not None and cal is not fn and cal.get("body") is not None and cal.get("rect") == fn.get("rect") and cal.get("ret") == "void" and cal.get("access", 2) != 0 and not (keep(cal.get("name") or "") if callable(keep) else cal.get("name") in keep) \
+            if cal is not None and cal is not fn and cal.get("body") is not None and cal.get("rect") == fn.get("rect") and cal.get("ret") == "void" and (cal.get("access", 2) != 0 or cal.get("rect") in struct_like(by_pat)) and not (keep(cal.get("name") or "") if callable(keep) else cal.get("name") in keep) \
                     and cal["pat"] not in _stack and len(cal.get("params", [])) == len(c.get("args", [])) and (c.get("obj") is None or strip(c["obj"]).get("k") == "This"):
                 m = {p["d"]: a for p, a in zip(cal["params"], c["args"])}
                 body = subst(cal["body"], m)
                 inner = inlined_body({"body": body, "rect": cal.get("rect"), "pat": cal["pat"]}, by_pat, d - 1, _stack + (fn.get("pat"), cal["pat"]), keep)
                 return {"k": "Block", "s": stmts_of(inner), "loc": s.get("loc"), "inlined": cal.get("name")}
+        if s.get("k") == "Block":
+            out = []
+            for x in s.get("s", []):
+                r = rec(x, d)
+                has_ret = [False]
+                if isinstance(r, dict) and r.get("k") == "Block" and r.get("inlined"):
+                    walk(r, lambda y: has_ret.__setitem__(0, True) if y.get("k") == "Return" else None)
+                if isinstance(r, dict) and r.get("k") == "Block" and r.get("inlined") and not has_ret[0]:
+                    out.extend(r.get("s", []))      # the helper's statements take the place of the call (a `return` inside
+                    # the helper only leaves the helper: such a body stays a block of its own)
+                else:
+                    out.append(r)
+            return dict({k: v for k, v in s.items() if k != "s"}, s=out)
         return {k: rec(v, d) for k, v in s.items()}
     return rec(fn.get("body"), depth)
 
